@@ -15,7 +15,16 @@ def main():
       pass
   with open(fin) as f:
     items = json.load(f)
-  res = getattr(importlib.import_module('harness.' + module), func)(items)
+  try:
+    res = getattr(importlib.import_module('harness.' + module), func)(items)
+  except Exception as ex:   # pylint: disable=broad-except
+    from harness import common
+    if isinstance(ex, common.MachineryError) or not common.library_raised(ex):
+      raise
+    import traceback
+    with open(fout, 'w') as f:
+      json.dump({'__library_error__': traceback.format_exc()[-4000:]}, f)
+    return
   with open(fout, 'w') as f:
     json.dump(res, f, default=str)
 
